@@ -684,10 +684,17 @@ func (req *Request) buildDistributedRequestData(subBackends []string) (requestDa
 	}
 
 	// Sort order
-	if len(req.Sort) != 0 {
+	// keys which are not among the requested columns are fetched in addition, PostProcessing removes them from the
+	// merged result again. Index is the position of the key in the rows of the merged result.
+	if len(req.Sort) != 0 && !isStatsRequest {
+		columns, _ := requestData["columns"].([]string)
+		columns = append(make([]string, 0, len(columns)+len(req.Sort)), columns...)
 		var sort []string
 		for i := range req.Sort {
 			sortField := req.Sort[i]
+			if sortField.Group {
+				continue
+			}
 			var line string
 			var direction string
 			switch sortField.Direction {
@@ -696,10 +703,28 @@ func (req *Request) buildDistributedRequestData(subBackends []string) (requestDa
 			case Asc:
 				direction = "asc"
 			}
-			line = sortField.Name + " " + direction
+			line = sortField.Name
+			if sortField.Args != "" {
+				line += " " + sortField.Args
+			}
+			line += " " + direction
 			sort = append(sort, line)
+
+			sortField.Index = -1
+			for j, col := range req.RequestColumns {
+				if col == sortField.Column {
+					sortField.Index = j
+
+					break
+				}
+			}
+			if sortField.Index == -1 {
+				columns = append(columns, sortField.Name)
+				sortField.Index = len(columns) - 1
+			}
 		}
 		requestData["sort"] = sort
+		requestData["columns"] = columns
 	}
 
 	// the user the result is restricted to
